@@ -15,8 +15,10 @@ def main():
     sys.path.insert(0, repo)
     import auditok.cmdline as C
     shim = types.ModuleType("time_shim")
+    for n_ in dir(_time):
+        if not n_.startswith("__"):
+            setattr(shim, n_, getattr(_time, n_))
     shim.sleep = lambda s: _time.sleep(0.002)       # the 1 s poll of main(), shortened
-    shim.time = _time.time
     C.time = shim
     import gc
     import hashlib
